@@ -36,6 +36,54 @@ def expr(op, a, b):
             "unitMul": f"math.unit({a} * {b})", "unitDiv": f"math.unit(math.div({a}, {b}))"}[op]
 
 
+# ---------------------------------------------------------------------------------------------
+# Round 3 (seeded C08-r3m1): DIRECT predicate for < == min max across convertible units, from the
+# hand-written CSS ratios (Grass.Units.factorSym: rational x pi^k), independent of the model's runOp.
+# ---------------------------------------------------------------------------------------------
+from fractions import Fraction
+_PI_LO, _PI_HI = Fraction(314159265358979, 10 ** 14), Fraction(314159265358980, 10 ** 14)
+_MARGIN = Fraction(1, 10 ** 9)
+
+
+def spec_factors(pairs):
+    """(u, v) -> (q, k): 1 v = q * pi^k u by the CSS ratios, for convertible known units."""
+    ps = [(u, v) for (u, v) in pairs if u not in ("-",) and v not in ("-",) and not u.startswith("?") and not v.startswith("?")]
+    out = {}
+    for (u, v), o in zip(ps, driver([f"units factor {u} {v}" for (u, v) in ps])):
+        f = o.split(" ")
+        if len(f) == 4 and f[0] == "ok" and f[3].startswith("pi^"):
+            out[(u, v)] = (Fraction(f[2]), int(f[3][3:]))
+    return out
+
+
+def spec_order(x, u, y, v, fac):
+    """-1 / 0 / 1 when (x u) is decisively below / exactly equal to / above (y v) by the CSS ratios; None when
+    too close to call (within 1e-9, i.e. anywhere near the 1e-11 tolerance) or not convertible."""
+    if u == v:
+        q, k = Fraction(1), 0
+    elif (u, v) in fac:
+        q, k = fac[(u, v)]
+    else:
+        return None
+    a, b0 = Fraction(x), Fraction(y) * q
+    cands = [b0] if k == 0 else ([b0 * _PI_LO, b0 * _PI_HI] if k == 1 else [b0 / _PI_LO, b0 / _PI_HI] if k == -1 else None)
+    if cands is None:
+        return None
+    lo, hi = min(cands), max(cands)
+    if lo == hi == a:
+        return 0
+    if a < lo - _MARGIN:
+        return -1
+    if a > hi + _MARGIN:
+        return 1
+    return None
+
+
+def _unit_of(txt):
+    m = re.fullmatch(r"-?[0-9.]+(?:e[-+]?[0-9]+)?([A-Za-z%]*)", txt.strip())
+    return m.group(1) if m else None
+
+
 HEAD = '@use "sass:math";\n@use "sass:meta";\n'
 RULE = re.compile(r"i:\s*(\d+);\s*v:\s*([^;}]*?)\s*;?\s*\}")
 
@@ -363,6 +411,7 @@ def run(tier, seed):
     for p in pairs:
         if spec_cmp[p] != code_cmp[p]:
             ck.notes.append(f"comparable() and the CSS ratios disagree on {p}")
+    fac = spec_factors(pairs)
     chk_lines, chk_idx = [], []
     for i, c in enumerate(cases):
         if c[0] in ("add", "sub") and (obs[i].startswith("ok ") or obs[i] == "err incompatible"):
@@ -402,9 +451,25 @@ def run(tier, seed):
                 fail = "operation on convertible units failed"
             if not sc and obs[i] != "err incompatible":
                 fail = "operation on inconvertible units did not raise 'Incompatible units'"
+            if not fail and sc and u != "-" and v != "-" and op in ("lt", "min", "max"):
+                o = spec_order(x, u, y, v, fac)
+                if o is not None:
+                    ck.hist("direct-order:" + op)
+                    if op == "lt" and obs[i] != ("ok true" if o < 0 else "ok false"):
+                        fail = f"`<` across convertible units disagrees with the CSS ratios (order by ratios: {o})"
+                    if op in ("min", "max") and o != 0 and u != v:
+                        want = u if ((o < 0) == (op == "min")) else v
+                        if _unit_of(obs[i][3:]) != want:
+                            fail = f"math.{op} across convertible units picked the wrong operand (by the CSS ratios the result has unit {want})"
         elif op == "eq":
             if not obs[i].startswith("ok ") or (not sc and obs[i] != "ok false"):
                 fail = "== on inconvertible units must be false (and never an error)"
+            if not fail and sc and u != "-" and v != "-":
+                o = spec_order(x, u, y, v, fac)
+                if o is not None:
+                    ck.hist("direct-order:eq")
+                    if obs[i] != ("ok true" if o == 0 else "ok false"):
+                        fail = f"== across convertible units disagrees with the CSS ratios (order by ratios: {o})"
         elif op == "compatible":
             if obs[i] != ("ok true" if sc else "ok false"):
                 fail = "math.compatible disagrees with convertibility by the CSS ratios"
